@@ -35,7 +35,10 @@ package clusterinfo
 // non-nil by GetNSQDStats and only ever receives &ChannelStats{...} values that then go through Add.
 //@ func (c *ClusterInfo) GetNSQDStats$1(p *Producer)
 //@   props C18
-//@   requires c != nil && c.client != nil && p != nil
+//@   requires c != nil && c.client != nil
+//   (`env-`: the producer lists come out of the merge workers, whose writes are not modelled - that they hold no nil entry is an assumption
+//   about the callers, reported in the evidence, not an obligation of the `go` statement in GetNSQDStats)
+//@   requires[env-producer-non-nil] p != nil
 //@   requires[captured-map] channelStatsMap != nil
 //@   lockassume forall k string :: {channelStatsMap[k]} has(channelStatsMap, k) ==> accOK(channelStatsMap[k])
 //@   loop 0
